@@ -1763,3 +1763,41 @@ mut("C16", "pipe-token-without-lookahead", "R16-6|parsers::parser_line::parse_li
                     result.push((String::from(""), token));
                 }
                 result.push((String::from(""), "|".to_string()));"""))
+
+mut("C06", "pop-cont-clears-map", "R06-8|signals::pop_cont_map|bulk|clear",
+    "taking one `continued` event wipes the whole map",
+    ("src/signals.rs", """pub fn pop_cont_map(pid: i32) -> bool {
+    match CONT_MAP.try_lock() {
+        Ok(mut m) => m.remove(&pid),""", """pub fn pop_cont_map(pid: i32) -> bool {
+    match CONT_MAP.try_lock() {
+        Ok(mut m) => {
+            let hit = m.contains(&pid);
+            m.clear();
+            hit
+        }"""))
+mut("C14", "break-on-nonzero-status-in-loop", "R14-3|scripting::run_exp|flag-raised-otherwise",
+    "a failing command inside a loop acts as break",
+    ("src/scripting.rs", """                if status != 0 && sh.exit_on_error {
+                    return (cr_list, false, false);
+                }""", """                if status != 0 && sh.exit_on_error {
+                    return (cr_list, false, false);
+                }
+                if status == 130 && in_loop {
+                    return (cr_list, false, true);
+                }"""))
+mut("C01", "planner-refuses-incomplete-lines", "R01-6|types::CommandLine::from_line|reads-is_complete",
+    "from_line refuses what the tokenizer calls incomplete",
+    (T, """        let linfo = parsers::parser_line::parse_line(line);
+        let mut tokens = linfo.tokens;
+        shell::do_expansion(sh, &mut tokens);
+        let envs = drain_env_tokens(&mut tokens);""", """        let linfo = parsers::parser_line::parse_line(line);
+        if !linfo.is_complete {
+            return Err(String::from("syntax error: unexpected end of line"));
+        }
+        let mut tokens = linfo.tokens;
+        shell::do_expansion(sh, &mut tokens);
+        let envs = drain_env_tokens(&mut tokens);"""))
+mut("C12", "hidden-test-on-whole-path", "R12-15|shell::expand_glob|last-component",
+    "the hidden-entry test looks at the whole match instead of its last component",
+    (S, """                                if _basename.starts_with('.') && !show_hidden {""",
+     """                                if file_path.starts_with('.') && !show_hidden {"""))
